@@ -392,6 +392,7 @@ def run(ctx):
     ctx.floor("judged:table.slice", ctx.pick(50, 1000))
     ctx.floor("judged:table.pandas", ctx.pick(20, 500))
     ctx.floor("judged:equal-lengths", ctx.pick(500, 10000))
+    ctx.floor("blind_steps", ctx.pick(200, 4000))       # the un-decoded / lazy-view variants must actually have run
 
 
 def replay(ctx, w):
